@@ -17,7 +17,7 @@ import time
 import numpy as np
 import sympy
 
-from common import Driver, Report, lean_obligations, err_class, load_findings
+from common import Driver, Report, lean_obligations, err_class, load_findings, wf_failure
 import paramlib as pl
 
 PROP = "C14"
@@ -360,6 +360,388 @@ def check_lambdify(rep, fam, d, ev, xs, vals, case):
         rep.fail("lambdified_diagram_evaluates_to_non_number", case, str(bad[:3]))
 
 
+
+# --------------------------------------------------------------------------- sequences of operations
+
+def collect_symbols(*datas):
+    out = set()
+    for data in datas:
+        out |= pl.data_symbols(data)
+    return out
+
+
+def data_same(x, y, rng=None):
+    """Box data equal as values: same length, same symbols, numerically equal at a rational point."""
+    fx, fy = pl.flat_data(x), pl.flat_data(y)
+    if len(fx) != len(fy):
+        return False
+    sx, sy = collect_symbols(fx), collect_symbols(fy)
+    if sx != sy:
+        return False
+    point = {s: sympy.Rational(3 + 2 * k, 7 + k) for k, s in enumerate(sorted(sx, key=str))}
+    try:
+        return pl.close(pl.numvec(fx, point), pl.numvec(fy, point))
+    except Exception:
+        return False
+
+
+def box_same(a, b):
+    return (type(a) is type(b) and str(a.dom) == str(b.dom) and str(a.cod) == str(b.cod)
+            and bool(a.is_dagger) == bool(b.is_dagger)
+            and getattr(a, "is_mixed", None) == getattr(b, "is_mixed", None)
+            and data_same(getattr(a, "data", None), getattr(b, "data", None)))
+
+
+def same_diagram(a, b):
+    """Equality of two diagrams as the property means it (types, layout, boxes with equal data),
+    without the library's `==`."""
+    return (str(a.dom) == str(b.dom) and str(a.cod) == str(b.cod)
+            and list(a.offsets) == list(b.offsets) and len(a.boxes) == len(b.boxes)
+            and all(box_same(x, y) for x, y in zip(a.boxes, b.boxes)))
+
+
+def views_failure(d):
+    """A diagram is ONE value: its boxes read from `.boxes`, from `.layers`, by iteration, by
+    indexing `d[i]` and by slicing `d[i:i+1]` must be the same boxes at the same offsets (and the
+    diagram well-formed).  None, or (view, text)."""
+    why = wf_failure(d)
+    if why:
+        return "wf", why
+    n = len(d.boxes)
+    try:
+        views = dict(
+            layers=[(box, len(left)) for left, box, _ in d.layers.boxes],
+            iteration=[(x.boxes[0], x.offsets[0]) for x in d],
+            index=[(d[i].boxes[0], d[i].offsets[0]) for i in range(n)],
+            slice=[(d[i:i + 1].boxes[0], d[i:i + 1].offsets[0]) for i in range(n)])
+        if n >= 2:
+            k = n // 2
+            views["two_slices"] = list(zip(d[:k].boxes + d[k:].boxes, d[:k].offsets + d[k:].offsets))
+    except Exception as exc:
+        return "raises", repr(exc)[:200]
+    for name, got in sorted(views.items()):
+        if len(got) != n:
+            return name, "%d boxes through %s, %d in .boxes" % (len(got), name, n)
+        for i, ((b, off), ref, roff) in enumerate(zip(got, d.boxes, d.offsets)):
+            if off != roff or not box_same(b, ref):
+                return name, "box %d: .boxes has %r at offset %d, %s gives %r at offset %d" % (
+                    i, ref, roff, name, b, off)
+    return None
+
+
+def check_views(rep, what, case, d):
+    bad = views_failure(d)
+    if bad:
+        rep.fail("%s_result_inconsistent:%s" % (what, bad[0]), case, bad[1][:400])
+        return False
+    rep.count("views_ok:" + what)
+    return True
+
+
+def as_pairs(args):
+    return list(args[0]) if len(args) == 1 else [tuple(args)]
+
+
+def first_steps(rng, free, syms, eg, real):
+    """Partial (and sometimes total) first substitutions of a sequence."""
+    fresh = sympy.Symbol("z0", real=True) if real else sympy.Symbol("z0")
+    v = rng.choice(free)
+    others = [s for s in free if s != v]
+    out = [("number", (v, eg.number()))]
+    w = rng.choice(others + [fresh])
+    out.append(("expr", (v, w * rng.choice([1, 2, -1, sympy.Rational(1, 2)]) + rng.choice([0, 1, sympy.Rational(1, 3)]))))
+    out.append(("expr_self", (v, v * rng.choice([2, -1]) + rng.choice([0, 1]))))
+    if others:
+        k = rng.randint(1, len(others))
+        out.append(("pairs", ([(s, eg.number(allow_float=False)) for s in rng.sample(free, k)], )))
+    return out
+
+
+def expected_symbols(d, args):
+    out = set()
+    for b in d.boxes:
+        for e in pl.flat_data(getattr(b, "data", None)):
+            if hasattr(e, "free_symbols"):
+                out |= set(sympy.sympify(e).subs(*args).free_symbols)
+    return out
+
+
+def seq_eval(rep, fam, sig, case, diagram, want, point):
+    """Evaluate `diagram` and compare with the reference entries `want`."""
+    try:
+        got = pl.entries(family_eval(fam, diagram))
+    except Exception as exc:
+        rep.fail(sig + ":eval_raises:" + exc_sig(exc), case, repr(exc)[:200])
+        return None
+    try:
+        if compare_eval(rep, sig, case, got, want, point):
+            rep.count("seq_eval_ok")
+    except Exception as exc:            # symbols left in an evaluation that should be closed at `point`
+        rep.fail(sig + ":not_numeric", case, "%s: %s" % (exc_sig(exc), str(got)[:200]))
+    return got
+
+
+def check_sequences(rep, fam, d, syms, rng, real):
+    """Sequences of parameter operations on ONE diagram, each compared with the one-shot result
+    and with the evaluation (substitutions compose: d.subs(p).subs(q) == d.subs(p + q) for lists
+    of pairs applied in order; a substituted diagram is an ordinary diagram, so C14 holds for it)."""
+    eg = pl.ExprGen(rng, syms)
+    desc = dict(family=fam, diagram=repr(d)[:600])
+    free = sorted(pl.diagram_symbols(d), key=str)
+    n = len(d.boxes)
+    if not free:
+        rep.count("seq_skipped:no_symbols")
+        return
+    try:
+        es = pl.entries(family_eval(fam, d))
+    except Exception as exc:
+        rep.fail("symbolic_eval_raises:" + exc_sig(exc), desc, repr(exc)[:200])
+        return
+    check_views(rep, "generated", desc, d)
+    steps = first_steps(rng, free, syms, eg, real)
+    rng.shuffle(steps)
+    for style, args1 in steps[:2]:
+        case = dict(desc, first="subs%r" % (args1, ))
+        rep.count("seq_first:" + style)
+        rep.count("family:seq_" + fam)
+        rep.case("seq|%s|%s|%r" % (fam, desc["diagram"], args1), n >= 2)
+        try:
+            s1 = d.subs(*args1)
+        except Exception as exc:
+            rep.fail(classify_subs_exception(d, exc, "subs"), case, repr(exc)[:200])
+            continue
+        es1 = pl.ref_subs(es, args1)
+        free1 = sorted(expected_symbols(d, args1), key=str)
+        allsyms = sorted(set(syms) | set(free1), key=str)
+        # -- the result is one value however it is read
+        check_views(rep, "subs", case, s1)
+        if set(s1.free_symbols) != set(free1):
+            rep.fail("subs_wrong_symbols", case, "result has %s, substitution should leave %s" % (
+                sorted(map(str, s1.free_symbols)), list(map(str, free1))))
+        # -- subs again gives the same value (no state), the argument is left alone
+        try:
+            again = d.subs(*args1)
+            if not same_diagram(again, s1):
+                rep.fail("subs_not_repeatable", case, "%r then %r" % (s1, again))
+            if set(d.free_symbols) != set(free) or not check_views(rep, "argument_of_subs", case, d):
+                rep.fail("subs_changes_its_argument", case, repr(d)[:300])
+        except Exception as exc:
+            rep.fail("subs_not_repeatable:" + exc_sig(exc), case, repr(exc)[:200])
+        # -- subs then subs
+        if free1:
+            v2 = rng.choice(free1)
+            args2 = rng.choice([(v2, eg.number()),
+                                ([(s, eg.number(allow_float=False)) for s in free1], ),
+                                (v2, eg.affine())])
+        else:
+            args2 = (rng.choice(syms), eg.number())
+        c2 = dict(case, then="subs%r" % (args2, ))
+        rep.count("seq:subs_subs")
+        try:
+            s2 = s1.subs(*args2)
+            one = d.subs(as_pairs(args1) + as_pairs(args2))
+        except Exception as exc:
+            rep.fail(classify_subs_exception(s1, exc, "subs"), c2, repr(exc)[:200])
+            s2 = None
+        if s2 is not None:
+            if not same_diagram(s2, one):
+                rep.fail("subs_subs_differs_from_one_shot", c2, "%r vs %r" % (s2, one))
+            else:
+                rep.count("seq_same_diagram")
+            check_views(rep, "subs_subs", c2, s2)
+            for sig, text in attr_failures(d, s2, "subs_subs"):
+                rep.fail(sig, c2, text)
+            seq_eval(rep, fam, "subs_subs_eval_mismatch", c2, s2, pl.ref_subs(es1, args2),
+                     pl.rational_point(rng, allsyms))
+        # -- subs then lambdify: the result of subs is a diagram with parameters like any other
+        xs = list(free1)
+        if rng.random() < 0.3:
+            xs.append(sympy.Symbol("absent", real=True))
+        rng.shuffle(xs)
+        vals = [rng.choice([0.5, 0.25, 1, 2, -1, 0.3, 1.75]) for _ in xs]
+        c3 = dict(case, then="lambdify(%s)(%s)" % (", ".join(map(str, xs)), ", ".join(map(str, vals))))
+        rep.count("seq:subs_lambdify")
+        try:
+            lam = s1.lambdify(*xs)(*vals)
+        except Exception as exc:
+            rep.fail("lambdify_after_subs_raises:" + exc_sig(exc), c3, repr(exc)[:200])
+            lam = None
+        if lam is not None:
+            pairs = list(zip(xs, vals))
+            try:
+                ref = s1.subs(pairs) if pairs else s1
+                if not same_diagram(lam, ref):
+                    rep.fail("lambdify_after_subs_differs_from_subs", c3, "%r vs %r" % (lam, ref))
+                else:
+                    rep.count("seq_same_diagram")
+            except Exception as exc:
+                rep.fail(classify_subs_exception(s1, exc, "subs"), c3, repr(exc)[:200])
+            if set(lam.free_symbols):
+                rep.fail("not_closed_after_subs_then_lambdify", c3, str(lam.free_symbols))
+            check_views(rep, "subs_lambdify", c3, lam)
+            for sig, text in attr_failures(d, lam, "subs_lambdify"):
+                rep.fail(sig, c3, text)
+            got = seq_eval(rep, fam, "subs_lambdify_eval_mismatch", c3, lam,
+                           pl.ref_subs(es1, (pairs, )) if pairs else es1, {})
+            if got is not None and [e for e in got if not pl.is_number(e)]:
+                rep.fail("lambdified_diagram_evaluates_to_non_number", c3, str(got[:3]))
+        # -- subs then slice then eval: slices of the result are the substituted slices
+        if n >= 2:
+            i = rng.randrange(n)
+            j = rng.randint(i + 1, min(n, i + 3))
+            if (i, j) == (0, n):
+                i = 1
+            c4 = dict(case, then="[%d:%d]" % (i, j))
+            rep.count("seq:subs_slice")
+            try:
+                part, orig = s1[i:j], d[i:j]
+                ref = orig.subs(*args1)
+            except Exception as exc:
+                rep.fail("slice_after_subs_raises:" + exc_sig(exc), c4, repr(exc)[:200])
+                part = None
+            if part is not None:
+                if not same_diagram(part, ref):
+                    rep.fail("slice_after_subs_differs", c4, "%r vs %r" % (part, ref))
+                else:
+                    rep.count("seq_same_diagram")
+                try:
+                    eo = pl.entries(family_eval(fam, orig))
+                except Exception:
+                    eo = None                   # the un-substituted slice has no evaluation: nothing to compare
+                if eo is not None:
+                    seq_eval(rep, fam, "subs_slice_eval_mismatch", c4, part, pl.ref_subs(eo, args1),
+                             pl.rational_point(rng, allsyms))
+        # -- composing pieces of the result, then lambdifying the composite
+        if n >= 2 and rng.random() < 0.6:
+            k = rng.randint(1, n - 1)
+            vals5 = [rng.choice([0.5, 2, -1, 0.75]) for _ in free1]
+            c5 = dict(case, then="(s[:%d] >> s[%d:]).lambdify(%s)(%s)" % (
+                k, k, ", ".join(map(str, free1)), ", ".join(map(str, vals5))))
+            rep.count("seq:subs_compose_lambdify")
+            try:
+                lam5 = (s1[:k] >> s1[k:]).lambdify(*free1)(*vals5)
+                ref5 = d.subs(as_pairs(args1) + list(zip(free1, vals5)))
+                if not same_diagram(lam5, ref5):
+                    rep.fail("lambdify_after_subs_differs_from_subs", c5, "%r vs %r" % (lam5, ref5))
+                else:
+                    rep.count("seq_same_diagram")
+                check_views(rep, "subs_compose_lambdify", c5, lam5)
+            except Exception as exc:
+                rep.fail("lambdify_after_subs_raises:" + exc_sig(exc), c5, repr(exc)[:200])
+    # -- lambdify then subs: a closed diagram is unchanged by any substitution
+    vals = [rng.choice([0.5, 0.25, 1, 2, -1]) for _ in free]
+    case = dict(desc, first="lambdify(%s)(%s)" % (", ".join(map(str, free)), ", ".join(map(str, vals))))
+    rep.count("seq:lambdify_subs")
+    rep.case("seq|%s|%s|lambdify%r" % (fam, desc["diagram"], vals), n >= 2)
+    try:
+        lam = d.lambdify(*free)(*vals)
+    except Exception as exc:
+        rep.fail(classify_subs_exception(d, exc, "lambdify"), case, repr(exc)[:200])
+        return
+    check_views(rep, "lambdify", case, lam)
+    args = (rng.choice(free), eg.number())
+    c6 = dict(case, then="subs%r" % (args, ))
+    try:
+        after = lam.subs(*args)
+        if not same_diagram(after, lam):
+            rep.fail("subs_changes_closed_diagram", c6, "%r vs %r" % (after, lam))
+        check_views(rep, "lambdify_subs", c6, after)
+        seq_eval(rep, fam, "lambdify_subs_eval_mismatch", c6, after, pl.ref_subs(es, (list(zip(free, vals)), )), {})
+    except Exception as exc:
+        rep.fail(classify_subs_exception(lam, exc, "subs"), c6, repr(exc)[:200])
+
+
+# --------------------------------------------------------------------------- histories: alike diagrams in one process
+
+TIGHT = 1e-12
+
+
+def tight_same(xs, ys, point):
+    if len(xs) != len(ys):
+        return False
+    try:
+        a, b = pl.numvec(xs, point), pl.numvec(ys, point)
+    except Exception:
+        return False
+    return bool(a.size == 0 or np.abs(a - b).max() <= TIGHT * max(1.0, float(np.abs(a).max())))
+
+
+def expected_data(box, args):
+    """Reference: sympy's own subs on every symbolic datum, everything else untouched."""
+    return [sympy.sympify(e).subs(*args) if getattr(e, "free_symbols", None) else e
+            for e in pl.flat_data(getattr(box, "data", None))]
+
+
+def make_alike(fam, syms, depth_rng):
+    def make(r, dr, tail):
+        if fam == "tensor":
+            g = pl.TensorGen(r, syms, data_rng=dr, tail=tail)
+            return g.diagram(r.randint(2, 4))[0]
+        if fam in ("pure", "mixed"):
+            g = pl.CircuitGen(r, syms, mixed=(fam == "mixed"), max_qubits=2, numeric=0.45, tail=tail,
+                              data_rng=dr)
+            return g.circuit(r.randint(3, 5))[0]
+        return pl.ZXGen(r, syms, tail=tail, data_rng=dr).diagram(r.randint(2, 5))
+    return make
+
+
+def check_history(rep, fam, syms, rng, real):
+    """Two or three diagrams that look alike (same shape, names, gate classes; constants agreeing
+    on the printed digits, or independent data, or the same diagram built twice) are substituted
+    and lambdified one after another: every result must be the result for ITS diagram -- compared
+    box by box with sympy's subs of its own data (tight tolerance) and through the evaluation."""
+    k = rng.choice([2, 2, 3])
+    variants, mode = pl.alike_variants(rng, k, make_alike(fam, syms, rng))
+    order = list(range(k))
+    rng.shuffle(order)
+    free = sorted(set().union(*[pl.diagram_symbols(d) for d in variants]), key=str)
+    eg = pl.ExprGen(rng, syms)
+    if not free:
+        rep.count("history_skipped:no_symbols")
+        return
+    v = rng.choice(free)
+    args = rng.choice([(v, eg.number()), (v, eg.affine()), ([(x, eg.number(allow_float=False)) for x in free], )])
+    vals = [rng.choice([0.5, 0.25, 2, -1, 1.75]) for _ in free]
+    rep.count("history_mode:" + mode)
+    rep.count("history_family:" + fam)
+    alike_reprs = len({repr(d) for d in variants}) == 1 and mode != "same"
+    if alike_reprs:
+        rep.count("history_equal_repr_distinct_diagrams")
+    done = []
+    for idx in order:
+        d = variants[idx]
+        case = dict(family=fam, mode=mode, diagram=repr(d)[:500], subs=repr(args),
+                    data=[str(pl.flat_data(getattr(b, "data", None)))[:120] for b in d.boxes][:8],
+                    earlier_in_this_process=[repr(x)[:200] for x in done])
+        rep.case("hist|%s|%s|%r|%d" % (fam, case["diagram"], args, idx), len(d.boxes) >= 2 and bool(done))
+        point = pl.rational_point(rng, sorted(set(syms) | set(free), key=str))
+        done.append(d)
+        try:
+            es = pl.entries(family_eval(fam, d))
+        except Exception as exc:
+            rep.fail("symbolic_eval_raises:" + exc_sig(exc), case, repr(exc)[:200])
+            continue
+        for what, fn, a in (("subs", lambda d=d: d.subs(*args), args),
+                            ("lambdify", lambda d=d: d.lambdify(*free)(*vals), (list(zip(free, vals)), ))):
+            try:
+                res = fn()
+            except Exception as exc:
+                rep.fail(classify_subs_exception(d, exc, what), case, repr(exc)[:200])
+                continue
+            ok = len(res.boxes) == len(d.boxes)
+            for i, (b, rb) in enumerate(zip(d.boxes, res.boxes)):
+                if not tight_same(pl.flat_data(getattr(rb, "data", None)), expected_data(b, a), point):
+                    ok = False
+                    rep.fail("%s_result_is_not_of_this_diagram" % what, dict(case, op=what),
+                             "box %d: data %s, own data substituted is %s" % (
+                                 i, str(pl.flat_data(getattr(rb, "data", None)))[:150], str(expected_data(b, a))[:150]))
+                    break
+            if ok:
+                rep.count("history_%s_ok" % what)
+            check_views(rep, "history_" + what, dict(case, op=what), res)
+            seq_eval(rep, fam, "%s_eval_mismatch" % what if what == "subs" else "lambdify_eval_mismatch",
+                     dict(case, op=what), res, pl.ref_subs(es, a), point if what == "subs" else {})
+
 # --------------------------------------------------------------------------- witnesses of the findings
 
 def witnesses():
@@ -491,6 +873,57 @@ def model_stream(rep, drv, rng, n_cases):
     rep.extra["model_stream_s"] = round(time.time() - t0, 2)
 
 
+def seq_model_stream(rep, drv, rng, n_cases):
+    """Sequences on small integer-polynomial tensor diagrams, discopy against the Lean model of the
+    diagram WITH its redundant copies (Model/ParamSeq.lean), compared exactly:
+      psubs2eval  d.subs(x_i, q).subs(x_j, r).eval()
+      psliceeval  d.subs(x_i, q)[a:b].eval()         (also empty and out-of-range slices)
+      pviews      the data of the boxes of d.subs(x_i, q) read from .boxes and from .layers, offsets"""
+    syms = pl.symbols(True, NV)
+    lines, reals, cases = [], [], []
+
+    def data_tokens(boxes):
+        return " ".join([str(len(boxes))] + [
+            " ".join([str(len(pl.flat_data(b.data)))] + [tok_poly(e, syms) for e in pl.flat_data(b.data)])
+            for b in boxes])
+    for _ in range(n_cases):
+        g = pl.TensorGen(random.Random(rng.getrandbits(64)), syms, polyonly=True, maxdim=6)
+        d, spec = g.diagram(g.rng.randint(2, 3), plain_only=True)
+        tok = tok_pdiagram(spec, syms)
+        eg = pl.ExprGen(g.rng, syms)
+        n = len(d.boxes)
+        vi, vj = g.rng.randrange(NV), g.rng.randrange(NV)
+        q = eg.int_poly() if g.rng.random() < 0.6 else sympy.Integer(g.rng.randint(-2, 3))
+        r = eg.int_poly() if g.rng.random() < 0.4 else sympy.Integer(g.rng.randint(-2, 3))
+        a = g.rng.randint(0, n + 1)
+        b = g.rng.randint(0, n + 2)
+        reqs = [
+            ("psubs2eval %d %s %d %s %s" % (vi, tok_poly(q, syms), vj, tok_poly(r, syms), tok),
+             lambda d=d, vi=vi, vj=vj, q=q, r=r: "ok " + matrix_tokens(
+                 d.subs(syms[vi], q).subs(syms[vj], r).eval(), syms)),
+            ("psliceeval %d %s %d %d %s" % (vi, tok_poly(q, syms), a, b, tok),
+             lambda d=d, vi=vi, q=q, a=a, b=b: "ok " + matrix_tokens(d.subs(syms[vi], q)[a:b].eval(), syms)),
+            ("pviews %d %s %s" % (vi, tok_poly(q, syms), tok),
+             lambda d=d, vi=vi, q=q: (lambda s: "ok %s %s %s" % (
+                 data_tokens(s.boxes), data_tokens([box for _, box, _ in s.layers.boxes]),
+                 " ".join([str(len(s.offsets))] + [str(o) for o in s.offsets])))(d.subs(syms[vi], q))),
+        ]
+        for line, fn in reqs:
+            lines.append(line)
+            cases.append(dict(diagram=repr(d)[:300], request=line[:400]))
+            try:
+                reals.append(fn())
+            except Exception as exc:
+                reals.append("err " + err_class(exc))
+    answers = drv.ask_many(lines)
+    for line, case, real, model in zip(lines, cases, reals, answers):
+        stream = "model:" + line.split(" ")[0]
+        rep.count(stream)
+        rep.case(line, True)
+        if real != model:
+            rep.disagree(stream, case, real[:400], model[:400])
+
+
 def class_records():
     """(class token, constructor thunk) for every box class whose subs is modelled."""
     from discopy import tensor
@@ -563,13 +996,25 @@ def run(tier, seed, replay=None):
                 "spiders, Hadamards, scalars), each under 3-8 ways of supplying a substitution (number, "
                 "symbol, expression, list of pairs closing / not closing, absent symbol) and one "
                 "lambdify call; non-trivial = >= 2 boxes, >= 1 free symbol, substitution hits it; "
-                "distinct by (diagram, substitution)")
+                "distinct by (diagram, substitution).  SEQUENCES on one diagram (families seq_*): a first "
+                "substitution (number / expression in other or fresh symbols / expression in the symbol "
+                "itself / list of pairs), THEN a second subs, lambdify of the remaining symbols, slicing "
+                "[i:j], composing two slices and lambdifying, each compared with the one-shot result and "
+                "with the evaluation; lambdify then subs; every result read through .boxes, .layers, "
+                "iteration, d[i], d[i:i+1] (one value, well-formed); subs repeated (same result, argument "
+                "untouched).  HISTORIES: 2-3 diagrams that look alike (same shape, names, gate classes; "
+                "numeric constants agreeing on 2/3/5/9 significant digits, or independent data, or the "
+                "same diagram built twice) substituted and lambdified one after another in both orders, "
+                "each result compared with sympy's subs of ITS OWN data (1e-12) and through evaluation")
     rep.partial = [
         "sympy's subs / lambdify / simplify are outside the model (oracle only)",
         "the Lean polynomial instance (Model/Param.lean Poly) is not proved to be a commutative "
         "ring; it is validated against sympy by the model streams",
         "ZX diagrams have no evaluation in discopy 0.3.5: they are evaluated by the standard "
         "interpretation written in harness/paramlib.py, composed by discopy's tensor.Functor",
+        "sequences: the model (Model/ParamSeq.lean) covers the redundant record boxes/offsets/layers and "
+        "subs, lambdify, slicing [i:j] for non-negative indices without step on tensor diagrams; "
+        "iteration, d[i], str and the sequences on circuits / ZX diagrams are oracle-only",
     ]
     rep.assumptions = [
         "lambdify is called with symbol lists covering every free symbol (sympy.lambdify cannot "
@@ -583,6 +1028,7 @@ def run(tier, seed, replay=None):
     try:
         class_stream(rep, drv)
         model_stream(rep, drv, random.Random(rng.getrandbits(64)), 40 if quick else 300)
+        seq_model_stream(rep, drv, random.Random(seed * 1000003 + 141), 30 if quick else 250)
     finally:
         drv.close()
     t_fam = {}
@@ -614,5 +1060,34 @@ def run(tier, seed, replay=None):
             rep.sample(dict(family=fam, diagram=repr(d)[:300]))
             check_diagram(rep, fam, d, syms, r, real, budget)
         t_fam[fam] = round(time.time() - t0, 2)
+    # sequences of operations and histories: own generator, so that the cases of the families
+    # above stay those of earlier runs of the same seed
+    srng = random.Random(seed * 1000003 + 14)
+    plan = [("tensor", 10), ("pure", 6), ("mixed", 3), ("zx", 6)] if quick else \
+           [("tensor", 90), ("pure", 60), ("mixed", 30), ("zx", 60)]
+    t0 = time.time()
+    for fam, n in plan:
+        for k in range(n):
+            r = random.Random(srng.getrandbits(64))
+            real = (fam in ("mixed", )) or r.random() < 0.5
+            syms = pl.symbols(real, 3)
+            if fam == "tensor":
+                d, _ = pl.TensorGen(r, syms).diagram(r.randint(2, 4))
+            elif fam in ("pure", "mixed"):
+                d, _ = pl.CircuitGen(r, syms, mixed=(fam == "mixed"), max_qubits=2).circuit(
+                    r.randint(3, 5 if fam == "pure" else 4))
+            else:
+                d = pl.ZXGen(r, syms).diagram(r.randint(2, 5))
+            check_sequences(rep, fam, d, syms, r, real)
+    t_fam["sequences"] = round(time.time() - t0, 2)
+    t0 = time.time()
+    plan = [("tensor", 5), ("pure", 5), ("mixed", 2), ("zx", 4)] if quick else \
+           [("tensor", 50), ("pure", 50), ("mixed", 25), ("zx", 40)]
+    for fam, n in plan:
+        for k in range(n):
+            r = random.Random(srng.getrandbits(64))
+            real = (fam in ("mixed", )) or r.random() < 0.5
+            check_history(rep, fam, pl.symbols(real, 3), r, real)
+    t_fam["histories"] = round(time.time() - t0, 2)
     rep.extra["family_wall_s"] = t_fam
     return rep.finish()
